@@ -10,3 +10,9 @@ open Gldap.Session
 #print axioms respond_refusal
 #print axioms session_client_stream
 #print axioms session_current
+#print axioms session_fuel
+#print axioms session_never_crashes
+#print axioms session_never_crashes_current
+#print axioms session_ids
+#print axioms pipelined_session
+#print axioms Ber.readPacket_len
